@@ -4,6 +4,8 @@
 //! harness controls from the outside (raw libc calls on the peer end and on a dup of our end), a runtime
 //! built on a chosen driver, and the bounded "settle" loop that lets the driver process what the kernel
 //! already knows (never wall-clock ordering: the loop ends on an observation or on a generous deadline).
+pub mod waiter;
+
 use std::{
     os::fd::{AsRawFd, FromRawFd, OwnedFd, RawFd},
     sync::{
@@ -47,30 +49,79 @@ pub fn build_runtime(t: DriverType) -> Option<Runtime> {
     if rt.driver_type() == t { Some(rt) } else { None }
 }
 
-/// Unit of the read direction: the peer writes UNIT tagged bytes at a time and every read uses a UNIT buffer.
+/// Unit of the read direction: the peer writes UNIT position-coded bytes at a time, every read uses a UNIT buffer.
 pub const UNIT: usize = 4;
+/// Size of one waiter write: payload byte i of write number `serial` is serial*8+i (serial 1..=27),
+/// bytes >= 0xE0 are filler written by the harness itself.
+pub const WUNIT: usize = 8;
+pub const MAX_SERIAL: u32 = 27;
 
-/// Byte `i` of a stream: position-coded so that loss, duplication and reordering are visible.
-pub fn stream_byte(tag: u8, i: u64) -> u8 {
-    tag ^ ((i as u8).wrapping_mul(31)).wrapping_add((i >> 8) as u8)
+/// Byte `i` of the peer->ours stream: position-coded so that loss, duplication and reordering are visible.
+pub fn stream_byte(i: u64) -> u8 {
+    0x5a ^ ((i as u8).wrapping_mul(31)).wrapping_add((i >> 8) as u8)
 }
 
-/// A connected AF_UNIX stream pair. `ours` is handed to compio, `peer` stays with the harness, `ours_raw` is a
-/// dup of our end that the harness uses to fill the send buffer behind compio's back.
+pub fn payload(serial: u32) -> Vec<u8> {
+    (0..WUNIT as u32).map(|i| (serial * 8 + i) as u8).collect()
+}
+
+/// What the peer has seen of the ours->peer stream, parsed into whole waiter writes.
+#[derive(Default)]
+pub struct Wire {
+    /// serials of complete payloads in wire order
+    pub seen: Vec<u32>,
+    /// bytes of a payload that has started but is not complete yet
+    partial: Vec<u8>,
+    pub filler: u64,
+    /// first structural problem (torn / unknown bytes), if any
+    pub problem: Option<String>,
+}
+
+impl Wire {
+    fn feed(&mut self, bytes: &[u8]) {
+        for &b in bytes {
+            if b >= 0xE0 {
+                if !self.partial.is_empty() && self.problem.is_none() {
+                    self.problem = Some(format!("write torn by filler after {:?}", self.partial));
+                    self.partial.clear();
+                }
+                self.filler += 1;
+                continue;
+            }
+            let idx = (b % 8) as usize;
+            let serial = (b / 8) as u32;
+            let ok = if self.partial.is_empty() { idx == 0 && serial >= 1 } else { idx == self.partial.len() && self.partial[0] / 8 == b / 8 };
+            if !ok {
+                if self.problem.is_none() {
+                    self.problem = Some(format!("unexpected byte {b:#x} after partial {:?}", self.partial));
+                }
+                self.partial.clear();
+                continue;
+            }
+            self.partial.push(b);
+            if self.partial.len() == WUNIT {
+                self.seen.push(serial);
+                self.partial.clear();
+            }
+        }
+    }
+
+    pub fn partial_len(&self) -> usize {
+        self.partial.len()
+    }
+}
+
+/// A connected AF_UNIX stream pair. `ours` is handed to compio, `peer` stays with the harness, `ours_dup` is a
+/// dup of our end that the harness uses to fill the send buffer behind compio's back and to sample readiness.
 pub struct Pair {
     pub ours: Option<OwnedFd>,
     pub ours_dup: OwnedFd,
     pub peer: OwnedFd,
-    /// bytes written into our end so far (by anyone): next position of the ours->peer stream
-    pub out_pos: u64,
-    /// bytes the peer has read from the ours->peer stream
-    pub peer_in_pos: u64,
     /// bytes the peer wrote into the peer->ours stream
     pub peer_out_pos: u64,
+    pub wire: Wire,
+    fill_ctr: u64,
 }
-
-pub const TAG_IN: u8 = 0x5a; // peer -> ours
-pub const TAG_OUT: u8 = 0xa5; // ours -> peer
 
 fn set_nonblock(fd: RawFd) {
     unsafe {
@@ -99,19 +150,21 @@ impl Pair {
                 std::mem::size_of::<libc::c_int>() as u32,
             );
         }
-        set_nonblock(sv[0]);
+        // our end stays in blocking mode (PollFd::new switches it itself; an O_NONBLOCK descriptor makes io_uring
+        // answer EAGAIN instead of waiting, which is not what AsyncFd is used with); the harness' own calls on
+        // it use MSG_DONTWAIT
         set_nonblock(sv[1]);
         let d = unsafe { libc::fcntl(sv[0], libc::F_DUPFD_CLOEXEC, 0) };
         if d < 0 {
             return Err(std::io::Error::last_os_error());
         }
         let ours_dup = unsafe { OwnedFd::from_raw_fd(d) };
-        Ok(Self { ours: Some(ours), ours_dup, peer, out_pos: 0, peer_in_pos: 0, peer_out_pos: 0 })
+        Ok(Self { ours: Some(ours), ours_dup, peer, peer_out_pos: 0, wire: Wire::default(), fill_ctr: 0 })
     }
 
     /// Peer writes `n` bytes of the peer->ours stream. Returns false if the kernel refused (never expected).
     pub fn peer_write(&mut self, n: usize) -> bool {
-        let buf: Vec<u8> = (0..n as u64).map(|k| stream_byte(TAG_IN, self.peer_out_pos + k)).collect();
+        let buf: Vec<u8> = (0..n as u64).map(|k| stream_byte(self.peer_out_pos + k)).collect();
         let r = unsafe { libc::write(self.peer.as_raw_fd(), buf.as_ptr() as *const libc::c_void, n) };
         if r as isize != n as isize {
             return false;
@@ -125,18 +178,19 @@ impl Pair {
         unsafe { libc::shutdown(self.peer.as_raw_fd(), libc::SHUT_WR) };
     }
 
-    /// Fill our send buffer until the kernel says EAGAIN (through the dup, not through compio).
-    /// The bytes continue the ours->peer stream. Returns the number of bytes written.
+    /// Fill our send buffer with filler bytes until the kernel says EAGAIN (through the dup, not through compio).
     pub fn fill(&mut self) -> u64 {
         let mut total = 0u64;
         loop {
             let n = 1024usize;
-            let buf: Vec<u8> = (0..n as u64).map(|k| stream_byte(TAG_OUT, self.out_pos + k)).collect();
-            let r = unsafe { libc::write(self.ours_dup.as_raw_fd(), buf.as_ptr() as *const libc::c_void, n) };
+            let buf: Vec<u8> = (0..n as u64).map(|k| 0xE0 | ((self.fill_ctr + k) % 32) as u8).collect();
+            let r = unsafe {
+                libc::send(self.ours_dup.as_raw_fd(), buf.as_ptr() as *const libc::c_void, n, libc::MSG_DONTWAIT | libc::MSG_NOSIGNAL)
+            };
             if r <= 0 {
                 break;
             }
-            self.out_pos += r as u64;
+            self.fill_ctr += r as u64;
             total += r as u64;
             if total > (8 << 20) {
                 break;
@@ -145,8 +199,8 @@ impl Pair {
         total
     }
 
-    /// Peer reads everything that is queued; checks the ours->peer stream content. Err(position) on a wrong byte.
-    pub fn drain(&mut self) -> Result<u64, u64> {
+    /// Peer reads everything that is queued and feeds it to the wire parser. Returns the number of bytes.
+    pub fn drain(&mut self) -> u64 {
         let mut total = 0u64;
         let mut buf = vec![0u8; 65536];
         loop {
@@ -154,15 +208,31 @@ impl Pair {
             if r <= 0 {
                 break;
             }
-            for k in 0..r as usize {
-                if buf[k] != stream_byte(TAG_OUT, self.peer_in_pos + k as u64) {
-                    return Err(self.peer_in_pos + k as u64);
-                }
-            }
-            self.peer_in_pos += r as u64;
+            self.wire.feed(&buf[..r as usize]);
             total += r as u64;
         }
-        Ok(total)
+        total
+    }
+
+    /// Bytes queued in the kernel for our end (FIONREAD).
+    pub fn queued_in(&self) -> u64 {
+        let mut n: libc::c_int = 0;
+        unsafe { libc::ioctl(self.ours_dup.as_raw_fd(), libc::FIONREAD, &mut n) };
+        n.max(0) as u64
+    }
+
+    /// Take what is still queued for our end out of the kernel (end of a case).
+    pub fn take_leftover(&mut self) -> Vec<u8> {
+        let mut out = Vec::new();
+        let mut buf = [0u8; 4096];
+        loop {
+            let r = unsafe { libc::recv(self.ours_dup.as_raw_fd(), buf.as_mut_ptr() as *mut libc::c_void, buf.len(), libc::MSG_DONTWAIT) };
+            if r <= 0 {
+                break;
+            }
+            out.extend_from_slice(&buf[..r as usize]);
+        }
+        out
     }
 
     /// Level readiness of our end as the kernel reports it right now (poll(2) with zero timeout).
